@@ -1,5 +1,5 @@
 (* C03 - decoding of .def-declared types is exact and consumes exactly its bytes.  Statements only. *)
-From RU Require Import Base Types WireSpec TypesProofs.
+From RU Require Import Base Types WireSpec TypesProofs EncodingCorollaries.
 Open Scope N_scope.
 
 (* FULL STATEMENT (kept visible).  With the statement's own limits (every variable length and every count in packed
@@ -50,3 +50,15 @@ Example C03_example :
                  [VDict [("a"%string, TUInt 2); ("b"%string, TString)] [("a"%string, VInt 1); ("b"%string, VStr [x61; x62; x63])]; VNone] in
   has_type code_limits t v /\ wire_encode 1 t v = [x02; x01; x01; x00; x03; x61; x62; x63; x00].
 Proof. vm_compute. repeat split; auto; discriminate. Qed.
+
+(* "consumes exactly its bytes", from the writer's side: the encoding of typed values is prefix-free - a byte string has at most one reading as
+   "a value of this type, then a tail" - hence injective; the same for argument lists *)
+Theorem C03_wire_encode_prefix_free : forall t hdr v1 v2 r1 r2,
+  has_type code_limits t v1 -> has_type code_limits t v2 ->
+  (wire_encode hdr t v1 ++ r1 = wire_encode hdr t v2 ++ r2)%list -> v1 = v2 /\ r1 = r2.
+Proof. exact wire_encode_prefix_free. Qed.
+Theorem C03_encode_seq_prefix_free : forall hdr ts vs1 vs2 r1 r2,
+  Forall2 (has_type code_limits) ts vs1 -> Forall2 (has_type code_limits) ts vs2 ->
+  (encode_seq hdr ts vs1 ++ r1 = encode_seq hdr ts vs2 ++ r2)%list -> vs1 = vs2 /\ r1 = r2.
+Proof. exact encode_seq_prefix_free. Qed.
+Print Assumptions C03_wire_encode_prefix_free.
